@@ -59,7 +59,7 @@ def run(ctx):
 def gen_behaviours(ctx, cfg, num, tag):
     """vlib.core.behaviours with its own staging directory (runs concurrently with the exhaustive check)."""
     if num is None:
-        r = tlc(ctx, SPEC, "MC_DocUpdate", cfg, timeout=3000, workers=1, tag=tag)
+        r = tlc(ctx, SPEC, "MC_DocUpdate", cfg, timeout=3000, workers=4, tag=tag)
     else:
         r = tlc(ctx, SPEC, "MC_DocUpdate", cfg, mode="simulate", simulate=num, depth=40, timeout=3000, tag=tag)
     if r.inv_violated:
